@@ -3,7 +3,7 @@ Lemmas.SevmCorr — `step_corr`: every dispatch step of the symbolic core machin
 Lemmas.SevmStep) to what the reference EVM does on every related frame. One lemma per opcode class, then the
 assembly following the `if`-chain of `Model.Sevm.step`.
 -/
-import HalmosVerif.Lemmas.SevmStep
+import HalmosVerif.Lemmas.SevmMem
 
 set_option linter.unusedSectionVars false
 set_option linter.unusedSimpArgs false
@@ -15,14 +15,6 @@ open HalmosVerif.Model HalmosVerif.Model.Sevm HalmosVerif.Spec HalmosVerif.Lemma
 section
 variable {I : Interp} {env : Env} {code : List Nat} {p : Evm.Params} {w : Evm.World}
 variable {s : Simp} {o : Oracle} {cfg : Cfg} {st : SState} {f : Evm.Frame}
-
-/-- `int_of(popi())` returned `k`: the concrete word is `k` -/
-theorem toBV256_con (hs : SimpSound s) {v : HV} {n : Nat} (hw : WordRel I v n) {sz k : Nat}
-    (h : toBV256 s v = .bv sz (.con k)) : k = n := by
-  obtain ⟨r, e, wf, d⟩ := (toBV256_ok hs I hw.1 hw.2.1).ok_inj
-  rw [h] at e
-  cases e
-  rw [← hw.2.2, ← d]; rfl
 
 /-! ### POP, DUP, SWAP -/
 
@@ -39,7 +31,7 @@ theorem corr_pop (hR : R I env code p st f) (hsat : Sat I st.path) (hl : f.stack
   | cons v rest =>
     rw [hst] at hstk
     obtain ⟨n, cs, hcs, hw, hr⟩ := hstk.cons_inv
-    refine Corr.cont1 hsat rfl rfl (evm_pop (hR.hop hop) (by omega) hcs) (hR.next' rfl rfl rfl rfl rfl rfl rfl ?_ hr)
+    refine Corr.cont1 hsat rfl rfl (evm_pop (hR.hop hop) (by omega) hcs) (hR.next' rfl rfl rfl rfl rfl rfl rfl rfl rfl ?_ hr)
     simp only [hR.pc]
 
 theorem corr_dup (hR : R I env code p st f) (hsat : Sat I st.path) (hl : f.stack.length ≤ 1024) {op : Nat} (hop : opAt code st.pc = op)
@@ -55,7 +47,7 @@ theorem corr_dup (hR : R I env code p st f) (hsat : Sat I st.path) (hl : f.stack
     exact Corr.halt rfl hstep
   · simp only [e1]
     simp only [e2] at hstep
-    refine Corr.cont1 hsat rfl rfl hstep (hR.next' rfl rfl rfl rfl rfl rfl rfl ?_ (StackRel.cons hw hR.stack))
+    refine Corr.cont1 hsat rfl rfl hstep (hR.next' rfl rfl rfl rfl rfl rfl rfl rfl rfl ?_ (StackRel.cons hw hR.stack))
     simp only [hR.pc]
 
 theorem corr_swap (hR : R I env code p st f) (hsat : Sat I st.path) (hl : f.stack.length ≤ 1024) {op : Nat} (hop : opAt code st.pc = op)
@@ -86,7 +78,7 @@ theorem corr_swap (hR : R I env code p st f) (hsat : Sat I st.path) (hl : f.stac
       simp only [e1']
       rw [hcs] at e2
       simp only [hcs, e2] at hstep
-      refine Corr.cont1 hsat rfl rfl hstep (hR.next' rfl rfl rfl rfl rfl rfl rfl ?_ ?_)
+      refine Corr.cont1 hsat rfl rfl hstep (hR.next' rfl rfl rfl rfl rfl rfl rfl rfl rfl ?_ ?_)
       · simp only [hR.pc]
       · simp only [← hst, ← hcs]
         exact (hstk.set 0 hwb).set (op - 0x8f) hwa
@@ -128,7 +120,7 @@ theorem corr_calldataload (hs : SimpSound s) (hR : R I env code p st f) (hsat : 
   simp only [Evm.op1, hcs] at hstep
   obtain ⟨cwf, cw, ce⟩ := hR.env.cd off
   obtain ⟨lwf, le⟩ := loaded_ok hR.subst hsat cwf
-  refine Corr.cont1 hsat rfl rfl hstep (hR.next' rfl rfl rfl rfl rfl rfl rfl ?_ (StackRel.cons ?_ hr))
+  refine Corr.cont1 hsat rfl rfl hstep (hR.next' rfl rfl rfl rfl rfl rfl rfl rfl rfl ?_ (StackRel.cons ?_ hr))
   · simp only [hR.pc]
   · exact wordRel_mkBV hs lwf (by rw [le, ce]; rfl)
 
@@ -190,7 +182,7 @@ theorem corr_jumpi_dispatch (hs : SimpSound s) (hR : R I env code p st f) (hsat 
       R I env code p { ({ st with stack := rest } : SState) with pc := st.pc + 1 } f1 := by
     intro h0
     rw [if_pos h0] at hstep
-    exact ⟨_, hstep, hR.next' rfl rfl rfl rfl rfl rfl rfl (by simp only [hR.pc]) hr⟩
+    exact ⟨_, hstep, hR.next' rfl rfl rfl rfl rfl rfl rfl rfl rfl (by simp only [hR.pc]) hr⟩
   have htake : c0 ≠ 0 → (Evm.validJumpdests code).contains target = true →
       ∃ f1 f2, Evm.step p w f = .next w f1 ∧
         R I env code p { ({ st with stack := rest } : SState) with pc := target } f1 ∧
@@ -283,7 +275,7 @@ theorem conc_short (hR : R I env code p st f) {n : Nat} (h : st.stack.length < n
 /-- **step_corr.** For every program, every symbolic state and every concrete frame related to it (stack within the
     EVM limit), the result of the symbolic dispatch step corresponds to the concrete step(s). -/
 theorem step_corr (hs : SimpSound s) (hI : I.Std) (hR : R I env code p st f) (hsat : Sat I st.path)
-    (hl : f.stack.length ≤ 1024) :
+    (hl : f.stack.length ≤ 1024) (hmem : cfg.maxMem + 32 ≤ p.memLimit) :
     Corr I env code p w s o cfg st f (step s o cfg env code st) := by
   have hl' : ¬ f.stack.length > 1024 := by omega
   unfold step
@@ -317,7 +309,7 @@ theorem step_corr (hs : SimpSound s) (hI : I.Std) (hR : R I env code p st f) (hs
     rw [if_neg hfe]
     by_cases h5b : op = 0x5b
     · rw [if_pos h5b]; subst h5b
-      refine Corr.cont1 hsat rfl rfl (evm_jumpdest (hR.hop hop) hl') (hR.next' rfl rfl rfl rfl rfl rfl rfl ?_ hR.stack)
+      refine Corr.cont1 hsat rfl rfl (evm_jumpdest (hR.hop hop) hl') (hR.next' rfl rfl rfl rfl rfl rfl rfl rfl rfl ?_ hR.stack)
       simp only [hR.pc]
     rw [if_neg h5b]
     by_cases h50 : op = 0x50
@@ -338,7 +330,7 @@ theorem step_corr (hs : SimpSound s) (hI : I.Std) (hR : R I env code p st f) (hs
       have hrd : Evm.readBytes f.code (f.pc + 1) (Evm.pushLen op) =
           Evm.readBytes code (st.pc + 1) (Evm.pushLen op) := by rw [hR.code, hR.pc]
       rw [hrd] at hstep
-      refine Corr.cont1 hsat rfl rfl hstep (hR.next' rfl rfl rfl rfl rfl rfl rfl ?_ ?_)
+      refine Corr.cont1 hsat rfl rfl hstep (hR.next' rfl rfl rfl rfl rfl rfl rfl rfl rfl ?_ ?_)
       · simp only [hR.pc]
       · exact StackRel.cons (wordRel_con (push_value_lt _ _ _ hlen)) hR.stack
     rw [if_neg hpush]
@@ -455,16 +447,72 @@ theorem step_corr (hs : SimpSound s) (hI : I.Std) (hR : R I env code p st f) (hs
         exact Corr.halt rfl (evm_ret_short (hR.hop hop) hret hl' (conc_short hR (by rw [hst]; simp)))
       · rename_i ov rest0 hst
         split
-        · split
+        · rename_i szo loc ho
+          split
           · exact Corr.halt rfl (evm_ret_short (hR.hop hop) hret hl' (conc_short hR (by rw [hst]; simp)))
           · rename_i sv rest
             split
-            · rename_i sz hz
-              exact Corr.halt rfl (conc_ret_zero hs hR hl hop hret hst hz)
-            · exact Corr.stuck rfl
+            · rename_i szs size hz
+              split
+              · rename_i h0
+                subst h0
+                exact corr_ret hs hR hl hmem hop hret hst ho hz (Or.inl rfl)
+              · split
+                · exact Corr.limit rfl
+                · rename_i hle
+                  exact corr_ret hs hR hl hmem hop hret hst ho hz (Or.inr (by omega))
             · exact Corr.stuck rfl
         · exact Corr.stuck rfl
     rw [if_neg hret]
+    by_cases hmop : op = 0x51 ∨ op = 0x52 ∨ op = 0x53
+    · rw [if_pos hmop]
+      split
+      · rename_i hst
+        refine Corr.halt rfl (evm_mem_short (hR.hop hop) hl' ?_)
+        have : f.stack = [] := (hst ▸ hR.stack).nil_inv
+        rcases hmop with h1 | h1 | h1
+        · exact Or.inl ⟨h1, this⟩
+        · exact Or.inr ⟨Or.inl h1, by rw [this]; simp⟩
+        · exact Or.inr ⟨Or.inr h1, by rw [this]; simp⟩
+      · rename_i lv rest0 hst
+        split
+        · rename_i sz loc ht
+          split
+          · exact Corr.limit rfl
+          · rename_i hle
+            split
+            · rename_i h51
+              subst h51
+              exact corr_mload hs hR hsat hl hmem hop hst ht hle
+            · rename_i h51
+              have h23 : op = 0x52 ∨ op = 0x53 := by
+                rcases hmop with h1 | h1 | h1
+                · exact absurd h1 h51
+                · exact Or.inl h1
+                · exact Or.inr h1
+              split
+              · exact Corr.halt rfl (evm_mem_short (hR.hop hop) hl'
+                  (Or.inr ⟨h23, conc_short hR (by rw [hst]; simp)⟩))
+              · rename_i v rest
+                split
+                · rename_i h52
+                  subst h52
+                  split
+                  · rename_i szv r hv
+                    exact corr_mstore hs hR hsat hl hmem hop hst ht hle hv
+                  · exact Corr.stuck rfl
+                · rename_i h52
+                  have h53 : op = 0x53 := by
+                    rcases h23 with h1 | h1
+                    · exact absurd h1 h52
+                    · exact h1
+                  subst h53
+                  split
+                  · rename_i szv r hv
+                    exact corr_mstore8 hs hR hsat hl hmem hop hst ht hle hv
+                  · exact Corr.stuck rfl
+        · exact Corr.stuck rfl
+    rw [if_neg hmop]
     exact Corr.stuck rfl
 
 end
